@@ -58,8 +58,16 @@ def run(ctx, sess):
             flds = g['init'].get('fields', [])
             vals = {fn_: const_of(x) for fn_, x in zip(flds, kids(g['init']))}
             tables[int(m.group(1))] = (g, vals)
-    if len(tables) < 6:
+    if len(tables) < 1:
         raise AnalysisBroken('default tables found: %s' % sorted(tables))
+    by_name = {g_['name']: v_ for _, (g_, v_) in tables.items()}
+
+    def table_fits(name, w):
+        v = by_name.get(name)
+        if v is None or None in [v.get(f) for f in FIELDS]:
+            return False
+        spd, sdf, eps, sdf2 = (v.get(f) for f in FIELDS)
+        return (sdf * w) % 256 == 0 and sdf != 0 and spd % sdf == 0 and eps % (spd // sdf) == 0 and sdf2 != 0 and eps % sdf2 == 0 and all(v[f] >= mins[f] for f in FIELDS)
     for w, (g, v) in sorted(tables.items()):
         where = '%s:%d' % (g['file'], g['line'])
         spd, sdf, eps, sdf2 = (v.get(f) for f in FIELDS)
@@ -132,11 +140,11 @@ def run(ctx, sess):
                'arm present' if ok else ('width %d is accepted by the validator but has no defaults: zero fields keep 0 and are only lifted to the minimums' % w if not has else
                                         'data type %s of width %d gets no per-width defaults although other types of that width do (bits the validator ignores change the selection)' % (', '.join('0x%08x' % x[0] for x in sel if not x[1])[:60], w)))
         for dtv, tabs in has:
-            good = tabs == ['SIGNAL_%d_DEFAULTS' % w]
+            good = len(tabs) == 1 and table_fits(tabs[0], w)
             if not good:
-                ctx.ob('C16.2', False, d.name, 'table selected for width %d' % w, d.where(), 'data type 0x%08x selects %s' % (dtv, tabs))
-        if has and all(tabs == ['SIGNAL_%d_DEFAULTS' % w] for _, tabs in has):
-            ctx.ob('C16.2', True, d.name, 'table selected for width %d' % w, d.where(), 'SIGNAL_%d_DEFAULTS for %d data type variants' % (w, len(has)))
+                ctx.ob('C16.2', False, d.name, 'table selected for width %d' % w, d.where(), 'data type 0x%08x selects %s, whose values do not satisfy the relations for %d-bit samples' % (dtv, tabs, w))
+        if has and all(len(tabs) == 1 and table_fits(tabs[0], w) for _, tabs in has):
+            ctx.ob('C16.2', True, d.name, 'table selected for width %d' % w, d.where(), '%s for %d data type variants' % (has[0][1][0], len(has)))
     # common defaults on every path: stores to annotation_decimate_factor / utc_decimate_factor
     for fld in ('annotation_decimate_factor', 'utc_decimate_factor'):
         sts = [ev for ev in d.stores() if strip_casts(ev.store_parts()[0]).get('field') == fld]
